@@ -87,8 +87,8 @@ def mc_u1(pid, tier):
 # property -> list of (family, share of the walk budget)
 FAMILIES = {
     "C02": [("mixed", 0.5), ("retry", 0.3), ("persist", 0.3), ("enum:resume", 0), ("enum:handshake", 0)],
-    "C04": [("mixed", 0.5), ("session", 0.3), ("enum:handshake", 0), ("enum:refused", 0), ("enum:deadconnect", 0), ("enum:lossall", 0), ("enum:validconnect", 0), ("react", 0.3), ("enum:react", 0)], "C05": [("mixed", 0.6), ("retry", 0.4), ("enum:resume", 0), ("enum:retrygrid", 0), ("react", 0.3), ("enum:react", 0)], "C06": [("inbound", 0.6), ("mixed", 0.3), ("session", 0.2), ("enum:inbound2", 0)],
-    "C07": [("subs", 0.6), ("mixed", 0.4), ("react", 0.3), ("enum:react", 0)], "C08": [("retry", 0.5), ("mixed", 0.3), ("jitter", 0.3), ("enum:retrygrid", 0), ("enum:resume", 0)], "C09": [("qos2", 0.5), ("wrapq2", 0.4), ("mixed", 0.2), ("session", 0.2), ("enum:ids", 0), ("enum:resume", 0)],
+    "C04": [("mixed", 0.5), ("session", 0.3), ("enum:handshake", 0), ("enum:refused", 0), ("enum:deadconnect", 0), ("enum:lossall", 0), ("enum:validconnect", 0), ("react", 0.3), ("enum:react", 0)], "C05": [("mixed", 0.6), ("retry", 0.4), ("enum:resume", 0), ("enum:retrygrid", 0), ("enum:corners", 0), ("react", 0.3), ("enum:react", 0)], "C06": [("inbound", 0.6), ("mixed", 0.3), ("session", 0.2), ("enum:inbound2", 0)],
+    "C07": [("subs", 0.6), ("mixed", 0.4), ("enum:corners", 0), ("react", 0.3), ("enum:react", 0)], "C08": [("retry", 0.5), ("mixed", 0.3), ("jitter", 0.3), ("enum:retrygrid", 0), ("enum:resume", 0), ("enum:corners", 0)], "C09": [("qos2", 0.5), ("wrapq2", 0.4), ("mixed", 0.2), ("session", 0.2), ("enum:ids", 0), ("enum:resume", 0)],
     "C10": [("mixed", 0.5), ("persist", 0.4), ("session", 0.3), ("enum:heldback", 0), ("enum:resume", 0), ("react", 0.3), ("enum:react", 0)], "C11": [("session", 0.7), ("mixed", 0.3), ("enum:refused", 0), ("enum:lossall", 0), ("react", 0.3), ("enum:react", 0)], "C12": [("persist", 0.4), ("wrapsess", 0.3), ("session", 0.3), ("mixed", 0.2), ("enum:refused", 0), ("enum:resume", 0), ("enum:lossall", 0), ("enum:heldback", 0)],
     "C13": [("mixed", 0.3), ("session", 0.3), ("retry", 0.2), ("keepalive", 0.2), ("jitter", 0.2), ("enum:refused", 0), ("enum:resume", 0), ("enum:lossall", 0), ("react", 0.3), ("enum:react", 0)], "C14": [("mixed", 0.7), ("session", 0.3), ("enum:handshake", 0), ("enum:refstate", 0), ("enum:pktstate", 0), ("enum:heldback", 0), ("react", 0.3), ("enum:react", 0)],
     "C15": [("keepalive", 0.7), ("mixed", 0.3), ("enum:ka2", 0), ("enum:refused", 0)], "C16": [("enum:inject", 0), ("enum:handshake", 0), ("enum:pktstate", 0), ("mixed", 0.4), ("session", 0.3), ("react", 0.3), ("enum:react", 0)], "C17": [("wrap", 0.5), ("wrapsess", 0.4), ("mixed", 0.2), ("enum:ids", 0), ("react", 0.3), ("enum:react", 0)],
